@@ -178,13 +178,14 @@ def liveIds (h : HarvestM) : List (String × Nat) :=
   (h.custom.evs.toList.map (fun e => ("custom_event_data", e.data))) ++
   (h.errEv.evs.toList.map (fun e => ("error_event_data", e.data))) ++
   (h.span.evs.toList.map (fun e => ("span_event_data", e.data))) ++
-  (h.log.evs.toList.map (fun e => ("log_event_data", e.data))) ++
+  ((h.log.evs.toList.filter (·.data ≥ 1000)).map (fun e => ("log_event_data", e.data))) ++
   (h.errors.toList.map (fun e => ("error_data", e.data))) ++
   ((h.trSyn.toList ++ h.trForce.toList ++ h.trReg.toList).map (fun e => ("transaction_sample_data", e.data)))
 
 def reqIds (r : Req) : List (String × Nat) :=
   match r.payload with
-  | .events x => x.evs.toList.map (fun e => (r.cat.cmd, e.data))
+  -- damaged log events (ids below 1000: fewer than 4 bytes) are never part of a payload: they are no ledger entries
+  | .events x => (x.evs.toList.filter (fun e => r.cat != .logEv || e.data ≥ 1000)).map (fun e => (r.cat.cmd, e.data))
   | .errors a => a.toList.map (fun e => (r.cat.cmd, e.data))
   | .traces a b c => (a.toList ++ b.toList ++ c.toList).map (fun e => (r.cat.cmd, e.data))
   | _ => []
